@@ -105,6 +105,84 @@ def fold(inarray, fold_ar, count_ar, delays, maxdelay, tsamp, period, accel, tot
             fold_ar[pos] += inarray[nchans * (t + delays[c]) + c]
             count_ar[pos] += 1
 ''',
+    "fftconvolve": '''
+def fftconvolve(in1, in2):
+    if in1.ndim != 1 or in2.ndim != 1:
+        raise ValueError("Input arrays must be 1D.")
+    n1 = len(in1)
+    n2 = len(in2)
+    if n1 == 0 or n2 == 0:
+        return np.zeros(0, dtype=in1.dtype)
+    n = n1 + n2 - 1
+    n_good = nb_fft_good_size(n, real=True)
+    sp1 = np.fft.rfft(in1, n_good)
+    sp2 = np.fft.rfft(in2, n_good)
+    ret = np.fft.irfft(sp1 * sp2, n_good)
+    return ret[:n]
+''',
+    "circular_pad_goodsize": '''
+def circular_pad_goodsize(arr):
+    n = len(arr)
+    n_good = nb_fft_good_size(n, real=True)
+    result = np.empty(n_good, dtype=arr.dtype)
+    for i in range(n_good):
+        result[i] = arr[i % n]
+    return result
+''',
+    "normalize_template": '''
+def normalize_template(arr):
+    mean = np.mean(arr)
+    arr_norm = arr - mean
+    norm = np.sqrt(np.sum(arr_norm**2))
+    if norm == 0:
+        return arr_norm
+    return arr_norm / norm
+''',
+    "convolve_templates": '''
+def convolve_templates(data, temp_bank, ref_bin):
+    nbins = len(data)
+    ntemps = len(temp_bank)
+    convs = np.empty((ntemps, nbins), dtype=data.dtype)
+    data_pad = circular_pad_goodsize(data)
+    data_fft = np.fft.rfft(data_pad)
+    for itemp in range(ntemps):
+        temp_kernel = temp_bank[itemp]
+        temp_pad = np.zeros_like(data_pad)
+        temp_pad[: len(temp_kernel)] = temp_kernel
+        temp_pad = np.roll(temp_pad, -ref_bin[itemp])
+        temp_pad = np.roll(temp_pad[::-1], 1)
+        temp_norm = normalize_template(temp_pad)
+        conv = np.fft.irfft(data_fft * np.fft.rfft(temp_norm), len(data_pad))
+        convs[itemp, :] = conv[:nbins]
+    return convs
+''',
+    "form_mspec": '''
+def form_mspec(fspec):
+    nfreq = len(fspec)
+    mspec = np.zeros(nfreq, dtype=np.float32)
+    for i in range(nfreq):
+        mspec[i] = np.sqrt(fspec[i].real ** 2 + fspec[i].imag ** 2)
+    return mspec
+''',
+    "detrend_1d": '''
+def detrend_1d(arr):
+    m = len(arr)
+    if m == 0:
+        raise ValueError("Input array must be non-empty.")
+    if m == 1:
+        return np.zeros(1, dtype=arr.dtype)
+    x_sum = m * (m - 1) / 2
+    y_sum = 0.0
+    x_sq_sum = m * (m - 1) * (2 * m - 1) / 6
+    x_y_sum = 0.0
+    for i in range(m):
+        y_sum += arr[i]
+        x_y_sum += i * arr[i]
+    slope = (m * x_y_sum - x_sum * y_sum) / (m * x_sq_sum - x_sum**2)
+    intercept = (y_sum - slope * x_sum) / m
+    trend = slope * np.arange(m, dtype=arr.dtype) + intercept
+    return arr - trend.astype(arr.dtype)
+''',
     "compute_online_moments_basic": '''
 def compute_online_moments_basic(array, moments, startflag=0):
     nchans = moments.shape[0]
